@@ -1,2 +1,2 @@
-# KN8 (apply to <doc/>)
-<xsl:stylesheet version="1.0" xmlns:xsl="http://www.w3.org/1999/XSL/Transform" ><xsl:template match="/"><o><w:b xmlns:w="u5" xmlns="u4" xsl:exclude-result-prefixes="#default"/></o></xsl:template></xsl:stylesheet>
+# KN8 repaired by a fix: commit - regression case, must pass (apply to <doc/>)
+<xsl:stylesheet version="1.0" xmlns:xsl="http://www.w3.org/1999/XSL/Transform"><xsl:template match="/"><o><w:b xmlns:w="u5" xmlns="u4" xsl:exclude-result-prefixes="#default"></w:b></o></xsl:template></xsl:stylesheet>
